@@ -1,4 +1,3 @@
-from functools import lru_cache
 from pathlib import Path
 
 import click
@@ -9,17 +8,31 @@ from ..filtering import filter_names
 
 
 def touch_workflow(endpoints, graph, spec_hashes):
-    @lru_cache(maxsize=None)
-    def _visit(target):
-        for dep in graph.dependencies[target]:
-            _visit(dep)
+    visited = set()
 
+    def _touch(target):
         spec_hashes.update(target)
         for path in target.flattened_outputs():
             Path(path).touch(exist_ok=True)
 
-    for target in endpoints:
-        _visit(target)
+    # Touch dependencies before their dependents using an explicit stack. A
+    # recursive traversal overflows the interpreter stack on deep workflows.
+    for endpoint in endpoints:
+        stack = [endpoint]
+        while stack:
+            target = stack[-1]
+            if target in visited:
+                stack.pop()
+                continue
+            pending = [
+                dep for dep in graph.dependencies[target] if dep not in visited
+            ]
+            if pending:
+                stack.extend(pending)
+            else:
+                visited.add(target)
+                _touch(target)
+                stack.pop()
 
 
 @click.command()
